@@ -19,3 +19,36 @@ for (f, g, c, b) in [("oneshot", "oneshot", "GenericOneshotChannel", "false"), (
     s = t.replace("@FILE@", f).replace("@GROUP@", g).replace("@CHANNEL@", c).replace("@BROADCAST@", b).replace("@INSTANCES@", "\n".join(lines))
     open(os.path.join(D, f + ".rs"), "w").write(s)
 print(len(lines), "instances per flavour")
+
+# ---- shared-handle lifecycle harnesses
+t = open(os.path.join(D, "shared_template.rs.in")).read()
+COUNT = """    %s.inner.%s.store(n, Ordering::Relaxed);"""
+CLONE = """
+#[kani::proof]
+fn %(who)s_clone_and_drop_count_handles() {
+    let (s, r) = %(ctor)s::<NoopLock, u8>();
+    let n: usize = kani::any();
+    kani::assume(n >= 1 && n <= isize::MAX as usize);
+    %(var)s.inner.%(field)s.store(n, Ordering::Relaxed);
+    let c = %(var)s.clone();
+    assert!(%(var)s.inner.%(field)s.load(Ordering::Relaxed) == n + 1, "[C11] cloning a %(who)s counts one more live %(who)s handle");
+    assert!(!closed_flag(&s.inner.channel), "[C11] cloning never closes");
+    drop(c);
+    assert!(%(var)s.inner.%(field)s.load(Ordering::Relaxed) == n, "[C11] dropping a clone counts one less");
+    assert!(!closed_flag(&s.inner.channel), "[C11] the channel stays open while a handle of each side is alive");
+    core::mem::forget((s, r));
+}
+"""
+cfg = {
+ "oneshot": dict(CHAN="GenericOneshotChannel", CLOSED="is_fulfilled", CTOR="generic_oneshot_channel", USE="", SENDER_COUNT="", SENDER_LAST="true", RECEIVER_COUNT="", RECEIVER_LAST="true", CLONE_TESTS=""),
+ "oneshot_broadcast": dict(CHAN="GenericOneshotBroadcastChannel", CLOSED="is_fulfilled", CTOR="generic_oneshot_broadcast_channel", USE="use core::sync::atomic::Ordering;", SENDER_COUNT="", SENDER_LAST="true",
+      RECEIVER_COUNT=COUNT % ("r", "receivers"), RECEIVER_LAST="(n == 1)", CLONE_TESTS=CLONE % dict(who="receiver", ctor="generic_oneshot_broadcast_channel", var="r", field="receivers")),
+ "state_broadcast": dict(CHAN="GenericStateBroadcastChannel", CLOSED="is_closed", CTOR="generic_state_broadcast_channel", USE="use core::sync::atomic::Ordering;", SENDER_COUNT=COUNT % ("s", "senders"), SENDER_LAST="(n == 1)",
+      RECEIVER_COUNT=COUNT % ("r", "receivers"), RECEIVER_LAST="(n == 1)", CLONE_TESTS=CLONE % dict(who="receiver", ctor="generic_state_broadcast_channel", var="r", field="receivers") + CLONE % dict(who="sender", ctor="generic_state_broadcast_channel", var="s", field="senders")),
+}
+for f, c in cfg.items():
+    x = t.replace("@FILE@", f)
+    for k, v in c.items():
+        x = x.replace("@%s@" % k, v)
+    open(os.path.join(D, f + "_shared.rs"), "w").write(x)
+print("shared lifecycle files written")
